@@ -806,7 +806,7 @@ class AASFromXmlDecoder:
             None,
             _child_text_mandatory(element, NS_AAS + "contentType")
         )
-        value = _get_text_or_none(element.find(NS_AAS + "value"))
+        value = _get_text_or_empty_string_or_none(element.find(NS_AAS + "value"))
         if value is not None:
             blob.value = base64.b64decode(value)
         cls._amend_abstract_attributes(blob, element)
